@@ -35,6 +35,8 @@ var noopPrefixes = []string{
 	"(*github.com/prometheus/client_golang/prometheus.",
 	"(github.com/prometheus/client_golang/prometheus.",
 	"runtime/debug.",
+	"github.com/ethereum/go-ethereum/log.",
+	"(*github.com/ethereum/go-ethereum/event.Feed).",
 	"(*sync.Mutex).", "(*sync.RWMutex).",
 }
 
